@@ -1106,6 +1106,12 @@ def _expand_stars(
                     continue
                 if name in using_column_tables and table in using_column_tables[name]:
                     coalesced_columns.add(name)
+                    replacement = replaced_columns.get(name)
+                    if replacement:
+                        # * REPLACE (expr AS name) also applies to a column merged by USING
+                        new_selections.append(replacement.copy())
+                        continue
+
                     # TODO (mypyc): use a separate variable to avoid reusing `tables` (list) with dict type
                     using_tables = using_column_tables[name]
                     coalesce_args = [exp.column(name, table=table) for table in using_tables]
